@@ -53,29 +53,51 @@ Section Cover.
 
   Definition same_mode (c c' : ctx) : Prop := snd c' = snd c.
 
-  Lemma next_ctx_mode c t : snd (next_ctx cdres c t) = snd c.
+  Lemma next_state_mode st t op : snd (fst (next_state cdres st t op)) = snd (fst st).
   Proof.
-    unfold next_ctx. destruct (snd c) eqn:E; [exact E|].
-    destruct (extract_cd_target t) as [tgt|]; [destruct (nonempty tgt); [reflexivity|]|];
-      destruct (changes_directory t); cbn [unknown_ctx snd]; exact E.
+    unfold next_state. destruct (snd (fst st)) eqn:E; [exact E|].
+    match goal with |- context [if snd ?m && _ then _ else _] => set (moved := m) end.
+    assert (Hm : snd (fst moved) = false).
+    { subst moved. destruct (str_eqb op op_bg); [exact E|].
+      destruct (extract_cd_target t) as [tgt|].
+      - destruct (nonempty tgt && str_eqb op op_and && negb (str_eqb (st_prev st) op_or)); [cbn [fst snd]; first [exact E|reflexivity]|].
+        destruct (nonempty tgt || changes_directory t); cbn [fst snd unknown_ctx]; exact E.
+      - destruct (changes_directory t); cbn [fst snd unknown_ctx]; exact E. }
+    destruct (snd moved && negb (str_eqb op op_and)); cbn [fst snd unknown_ctx]; exact Hm.
   Qed.
 
+  Lemma next_ctx_mode c t : snd (next_ctx cdres c t) = snd c.
+  Proof. unfold next_ctx. apply (next_state_mode (init_state c)). Qed.
+
   (* the elements of a sequence are each analysed, in a context with the same remote flag *)
-  Lemma seq_ctxs_mode c l : forall p, In p (seq_ctxs cdres c l) -> same_mode c (fst p).
+  Lemma seq_ctxs_mode st l : forall p, In p (seq_ctxs cdres st l) -> same_mode (fst st) (fst p).
   Proof.
-    revert c; induction l as [|t l IH]; intros c p; [intros []|].
+    revert st; induction l as [|[t op] l IH]; intros st p; [intros []|].
     cbn [seq_ctxs]. intros [<-|H]; [reflexivity|].
-    apply IH in H. unfold same_mode in *. rewrite H. apply next_ctx_mode.
+    apply IH in H. unfold same_mode in *. rewrite H. apply next_state_mode.
   Qed.
+  Lemma item_ctx_mode c t : snd (item_ctx c t) = snd c.
+  Proof. unfold item_ctx. destruct (negb (snd c) && item_moves t); reflexivity. Qed.
+
+  (* every item of an approved case is approved, in a context with the same remote flag *)
+  Lemma pats_all c l : ok (pats simple astr mredir cdres injrisk rulematch c l) -> forall d, In d l -> exists c', same_mode c c' /\ ok (r_pat (ev d) c').
+  Proof.
+    revert c; induction l as [|p l IH]; intros c H d; [intros []|].
+    cbn [pats] in H. apply ok_app in H as [Hp Hr]. intros [<-|Hd].
+    - exists c. split; [reflexivity|exact Hp].
+    - destruct (IH _ Hr d Hd) as [c' [Hm Hc']]. exists c'. split; [|exact Hc'].
+      unfold same_mode in *. rewrite Hm. apply item_ctx_mode.
+  Qed.
+
   Lemma body_ctx_mode c b : snd (body_ctx c b) = snd c.
   Proof. unfold body_ctx. destruct (negb (snd c) && b); reflexivity. Qed.
 
-  Lemma seq_ctxs_all c l : forall t, In t l -> exists c', In (c', t) (seq_ctxs cdres c l).
+  Lemma seq_ctxs_all st l : forall t, In t (map fst l) -> exists c', In (c', t) (seq_ctxs cdres st l).
   Proof.
-    revert c; induction l as [|x l IH]; intros c t; [intros []|].
-    cbn [seq_ctxs]. intros [<-|H].
-    - exists c. left; reflexivity.
-    - destruct (IH (next_ctx cdres c x) t H) as [c' Hc]. exists c'. right; exact Hc.
+    revert st; induction l as [|[x op] l IH]; intros st t; [intros []|].
+    cbn [seq_ctxs map fst]. intros [<-|H].
+    - exists (fst st). left; reflexivity.
+    - destruct (IH (next_state cdres st x op) t H) as [c' Hc]. exists c'. right; exact Hc.
   Qed.
 
   Ltac kinds :=
@@ -99,17 +121,18 @@ Section Cover.
     { intros _ Hr Hi. apply in_tag in Hi as [-> Hd]. exists c. split; [reflexivity|].
       unfold redirs_of in Hr. rewrite ok_flat_map in Hr. exact (Hr d Hd). }
     destruct (str_eqb k $"command") eqn:E; [apply str_eqb_eq in E; subst k|].
-    { rewrite walk_command in H. apply ok_combine in H. rewrite !ok_app in H. destruct H as [Hw [_ [Hr _]]].
+    { rewrite walk_command in H. apply ok_combine in H. rewrite !ok_app in H. destruct H as [Hw [_ [_ [_ [Hr _]]]]].
       apply in_app_or in Hin as [Hi|Hi]; [|exact (Hred tt Hr Hi)].
       apply in_tag in Hi as [-> Hd]. exists c. split; [reflexivity|].
-      unfold wparts in Hw. rewrite ok_flat_map in Hw. exact (Hw d Hd). }
+      unfold wparts, wpartsb in Hw. rewrite ok_flat_map in Hw. exact (Hw d Hd). }
     destruct (str_eqb k $"pipeline") eqn:E1; [apply str_eqb_eq in E1; subst k|].
     { rewrite walk_pipeline in H. apply ok_combine in H. apply in_tag in Hin as [-> Hd].
       exists c. split; [reflexivity|]. cbn [field]. constructor; [|constructor].
       unfold ok in H. rewrite Forall_map, Forall_forall in H. exact (H d Hd). }
     destruct (str_eqb k $"list") eqn:E2; [apply str_eqb_eq in E2; subst k|].
     { rewrite walk_list, sequence_ctxs in H. apply ok_combine in H. apply in_tag in Hin as [-> Hd].
-      destruct (seq_ctxs_all c _ d Hd) as [c' Hc']. exists c'. split; [exact (seq_ctxs_mode c _ _ Hc')|].
+      rewrite <- list_items_parts in Hd.
+      destruct (seq_ctxs_all (init_state c) _ d Hd) as [c' Hc']. exists c'. split; [exact (seq_ctxs_mode (init_state c) _ _ Hc')|].
       cbn [field]. constructor; [|constructor]. unfold ok in H. rewrite Forall_map, Forall_forall in H.
       exact (H (c', d) Hc'). }
     destruct (str_eqb k $"if") eqn:E3; [apply str_eqb_eq in E3; subst k|].
@@ -140,7 +163,7 @@ Section Cover.
         apply firstc_child in Hd. rewrite Hd in Hb. exact Hb.
       - apply in_app_or in Hi as [Hi|Hi]; [|exact (Hred tt Hr Hi)].
         apply in_tag in Hi as [-> Hd]. exists c. split; [reflexivity|].
-        unfold wparts in Hw. rewrite ok_flat_map in Hw. exact (Hw d Hd). }
+        unfold wparts, wpartsb in Hw. rewrite ok_flat_map in Hw. exact (Hw d Hd). }
     destruct (str_eqb k $"select") eqn:E7; [apply str_eqb_eq in E7; subst k|].
     { kinds. rewrite walk_select in H. cbv zeta in H. apply ok_combine in H. rewrite ok_cons, ok_app in H. destruct H as [Hb [Hw Hr]].
       apply in_app_or in Hin as [Hi|Hi].
@@ -148,7 +171,7 @@ Section Cover.
         apply firstc_child in Hd. rewrite Hd in Hb. exact Hb.
       - apply in_app_or in Hi as [Hi|Hi]; [|exact (Hred tt Hr Hi)].
         apply in_tag in Hi as [-> Hd]. exists c. split; [reflexivity|].
-        unfold wparts in Hw. rewrite ok_flat_map in Hw. exact (Hw d Hd). }
+        unfold wparts, wpartsb in Hw. rewrite ok_flat_map in Hw. exact (Hw d Hd). }
     cbn [orb] in Hin.
     destruct (str_eqb k $"for-arith") eqn:E8; [apply str_eqb_eq in E8; subst k|].
     { rewrite walk_forarith in H. cbv zeta in H. apply ok_combine in H. rewrite ok_cons, !ok_app in H. destruct H as [Hb [_ [_ [_ Hr]]]].
@@ -159,10 +182,9 @@ Section Cover.
     { rewrite walk_case in H. apply ok_combine in H. rewrite !ok_app in H. destruct H as [Hw [Hp Hr]].
       apply in_app_or in Hin as [Hi|Hi].
       - apply in_tag in Hi as [-> Hd]. exists c. split; [reflexivity|].
-        unfold wparts in Hw. rewrite ok_flat_map in Hw. exact (Hw d Hd).
+        unfold wparts, wpartsb in Hw. rewrite ok_flat_map in Hw. exact (Hw d Hd).
       - apply in_app_or in Hi as [Hi|Hi]; [|exact (Hred tt Hr Hi)].
-        apply in_tag in Hi as [-> Hd]. exists c. split; [reflexivity|].
-        unfold pats in Hp. rewrite ok_flat_map in Hp. exact (Hp d Hd). }
+        apply in_tag in Hi as [-> Hd]. destruct (pats_all c _ Hp d Hd) as [c' [Hm Hc']]. exists c'. split; [exact Hm|exact Hc']. }
     destruct (str_eqb k $"function") eqn:E10; [apply str_eqb_eq in E10; subst k|].
     { rewrite walk_function in H. apply in_tag in Hin as [-> Hd]. exists c. split; [reflexivity|].
       cbn [field]. constructor; [|constructor]. apply firstc_child in Hd. rewrite Hd in H. exact H. }
@@ -306,14 +328,29 @@ Section Cover.
       unfold ok in H. rewrite Forall_map, Forall_forall in H. exact (H u Hu).
   Qed.
 
+  Lemma name_scans_ok c base words nassign l : forall pos,
+    ok (name_scans astr c base words nassign pos l) -> forall s, In s (name_raws base words nassign pos l) -> raw_ok c s.
+  Proof.
+    induction l as [|t l IH]; intros pos H s Hs; [destruct Hs|].
+    cbn [name_scans name_raws] in *. apply ok_app in H as [H1 H2]. apply in_app_or in Hs as [Hs|Hs]; [|exact (IH _ H2 s Hs)].
+    destruct (negb (nonempty (children "parts" t)) && (Nat.ltb pos nassign || names_variable base words pos nassign)); [|destruct Hs].
+    destruct Hs as [<-|[]]. exact H1.
+  Qed.
+
   Lemma raw_step r t c : ok (field r (ev t) c) -> forall s, In s (raw_positions r t) -> raw_ok c s.
   Proof.
     destruct t as [k ss fs ks]. destruct r as [| |b| | |]; cbn [field raw_positions]; unfold is_kind; cbn [kind_of strs_of]; intros H s Hs.
-    - destruct (str_eqb k $"for-arith") eqn:E; [|destruct Hs]. apply str_eqb_eq in E. subst k.
-      apply ok_cons in H as [H _]. change (walk c (T $"for-arith" ss fs ks) = Allow) in H.
-      rewrite walk_forarith in H. cbv zeta in H. apply ok_combine in H.
-      rewrite ok_cons, !ok_app in H. destruct H as [_ [H1 [H2 [H3 _]]]].
-      destruct Hs as [<-|[<-|[<-|[]]]]; assumption.
+    - destruct (str_eqb k $"for-arith") eqn:E.
+      + apply str_eqb_eq in E. subst k.
+        apply ok_cons in H as [H _]. change (walk c (T $"for-arith" ss fs ks) = Allow) in H.
+        rewrite walk_forarith in H. cbv zeta in H. apply ok_combine in H.
+        rewrite ok_cons, !ok_app in H. destruct H as [_ [H1 [H2 [H3 _]]]].
+        destruct Hs as [<-|[<-|[<-|[]]]]; assumption.
+      + destruct (str_eqb k $"command") eqn:Ec; [|destruct Hs]. apply str_eqb_eq in Ec. subst k.
+        apply ok_cons in H as [H _]. change (walk c (T $"command" ss fs ks) = Allow) in H.
+        rewrite walk_command in H. apply ok_combine in H. rewrite !ok_app in H. destruct H as [_ [_ [Hn _]]].
+        unfold cmd_names, cmd_words in Hn. unfold command_raws in Hs.
+        exact (name_scans_ok _ _ _ _ _ _ Hn s Hs).
     - rewrite exp_unfold in H. destruct (mem_str k SUBST_KINDS); [destruct Hs|].
       destruct (str_eqb k $"word"); [destruct Hs|].
       apply ok_app in H as [H _]. rewrite ok_flat_map in H. apply in_map_iff in Hs as [[l x] [<- Hx]]. exact (H (l, x) Hx).
